@@ -20,14 +20,15 @@ pub static ZERO: Zero = Zero;
 pub const ENTRIES: [&str; 12] = ["write(&[])", "read(&mut [])", "write_slice(&[])", "read_slice(&mut [])", "write_obj([u8; 0])", "read_obj::<[u8; 0]>", "write_obj([u64; 0])", "read_obj::<[u32; 0]>", "read_volatile_from(.., 0)", "read_exact_volatile_from(.., 0)", "write_volatile_to(.., 0)", "write_all_volatile_to(.., 0)"];
 
 thread_local! {
-    /// which source / sink the stream entries use (0 = holds data, 1 = drained slice, 2 = cursor at its end)
+    /// which source / sink the stream entries use (0 = holds data, 1 = drained slice, 2 = cursor at its end,
+    /// 3 = a file descriptor, 4 = a file descriptor positioned at the end of its file)
     static ENDPOINT: std::cell::Cell<u32> = const { std::cell::Cell::new(0) };
 }
 #[cfg(feature = "xen")]
 thread_local! {
     static XEN_ARMED: std::cell::Cell<bool> = const { std::cell::Cell::new(false) };
 }
-pub const ENDPOINTS: [&str; 3] = ["", " [drained / full in-memory endpoint]", " [cursor at its end]"];
+pub const ENDPOINTS: [&str; 5] = ["", " [drained / full in-memory endpoint]", " [cursor at its end]", " [descriptor]", " [descriptor at end of file]"];
 
 /// Issue one zero-length request through the `Bytes` interface. `Ok(detail)` / `Err(error text)`.
 fn bytes_zero<A: Copy, T: Bytes<A>>(t: &T, at: A, entry: usize) -> Result<String, String>
@@ -59,6 +60,16 @@ where
                     let r = if exact { t.read_exact_volatile_from(at, &mut s, 0).map(|()| 0) } else { t.read_volatile_from(at, &mut s, 0) };
                     r.map_err(e).and_then(|n| if n == 0 { Ok("0".into()) } else { Err(format!("count {}", n)) })
                 }
+                k @ (3 | 4) => {
+                    use std::io::{Seek, SeekFrom, Write};
+                    let mut f = crate::gmworld::memfd(0);
+                    f.write_all(&data).expect("memfd write");
+                    let pos = if k == 3 { 0 } else { 3 };
+                    f.seek(SeekFrom::Start(pos)).expect("seek");
+                    let r = if exact { t.read_exact_volatile_from(at, &mut f, 0).map(|()| 0) } else { t.read_volatile_from(at, &mut f, 0) };
+                    let now = f.stream_position().expect("position");
+                    r.map_err(e).and_then(|n| if n == 0 && now == pos { Ok("0".into()) } else { Err(format!("count {} / descriptor position {} -> {}", n, pos, now)) })
+                }
                 _ => {
                     let mut c = std::io::Cursor::new(&data[..]);
                     c.set_position(3 + (at_hint() % 3));
@@ -82,6 +93,17 @@ where
                     let mut sink: &mut [u8] = &mut backing[2..];
                     let r = if exact { t.write_all_volatile_to(at, &mut sink, 0).map(|()| 0) } else { t.write_volatile_to(at, &mut sink, 0) };
                     r.map_err(e).and_then(|n| if n == 0 { Ok("0".into()) } else { Err(format!("count {}", n)) })
+                }
+                k @ (3 | 4) => {
+                    use std::io::{Seek, SeekFrom, Write};
+                    let mut f = crate::gmworld::memfd(0);
+                    f.write_all(&[5, 6, 7]).expect("memfd write");
+                    let pos = if k == 3 { 0 } else { 3 };
+                    f.seek(SeekFrom::Start(pos)).expect("seek");
+                    let r = if exact { t.write_all_volatile_to(at, &mut f, 0).map(|()| 0) } else { t.write_volatile_to(at, &mut f, 0) };
+                    let now = f.stream_position().expect("position");
+                    let len = f.metadata().map(|m| m.len()).unwrap_or(0);
+                    r.map_err(e).and_then(|n| if n == 0 && now == pos && len == 3 { Ok("0".into()) } else { Err(format!("count {} / descriptor position {} -> {}, length {}", n, pos, now, len)) })
                 }
                 _ => {
                     let mut backing = [7u8; 2];
@@ -175,7 +197,8 @@ fn touch_events(from: usize) -> Vec<String> {
             EvKind::Read | EvKind::Write | EvKind::Touch => e.b > 0,
             EvKind::Bulk | EvKind::Copy => e.c > 0,
             EvKind::BulkByte | EvKind::Atomic => true,
-            EvKind::Sys => e.a == 3 || e.a == 4,
+            // (a read(2) / write(2) asked for 0 bytes moves nothing either)
+            EvKind::Sys => (e.a == 3 || e.a == 4) && e.b > 0,
             _ => false,
         })
         .map(crate::sim::fmt_ev)
@@ -278,7 +301,7 @@ impl Scenario for Zero {
                 });
                 log.push("(another actor writes a byte)".into());
             }
-            let endpoint = cx().a(3);
+            let endpoint = cx().a(5);
             ENDPOINT.with(|v| v.set(endpoint));
             // a request that names no bytes needs no mapping: on Xen regions, now and then, any map
             // request (ioctl or mmap) it made would fail
